@@ -37,8 +37,8 @@ impl Property for C01 {
         format!(
             "explicit-state BFS over all histories of Add(delta)/Fetch/Cancel(j) on the real CQueue<u32>, delta in {{0,1,t-1,t,t+1,Y-1,Y,Y+1,3Y+2}}, \
              configurations (n,t,depth) = {:?}; every transition re-executes the complete history on a fresh queue and compares every step with a reference list \
-             (len, fetched id/time, minimality, dead-cancel is a no-op), every newly found state is additionally drained through fetch_next; \
-             states are deduplicated per worker by a canonical form of the implementation snapshot (ids renamed to ranks) plus the reference's pending list; \
+             (len, fetched id/time, minimality, dead-cancel is a no-op), the queue is additionally drained through fetch_next after every history (not only the first one reaching a state); \
+             states are deduplicated per worker by a canonical form of the implementation snapshot (ids renamed to ranks) plus the reference's pending list (merged states are not expanded again); independently of that key, 4 configurations are explored to depth 5 (thorough 6) without merging any states; \
              distinct_nontrivial = distinct canonical states with at least one pending event (per worker; work below depth 2 is partitioned over workers, \
              so a state reachable under two partitions is counted by both)",
             configs(tier)
